@@ -744,11 +744,12 @@ def c03_job(chk, rng, i):
     configs = [dict(base)]
     kind = i % 4
     # other input paths (default back end): stdio batch, stdio interactive (getc), read(2)
+    sfl = "c99" if (i // 4) % 2 == 1 else "nr"     # (the c99 skeleton has its own yyread())
     if kind == 1:
-        configs.append({"flavour": "nr", "flexargs": lib.tables_args(tb, 8),
+        configs.append({"flavour": sfl, "flexargs": lib.tables_args(tb, 8),
                         "opts": {"input": "stdio", "never_interactive": True}})
     elif kind == 2 and not full:
-        configs.append({"flavour": "nr", "flexargs": lib.tables_args(tb, 8),
+        configs.append({"flavour": sfl, "flexargs": lib.tables_args(tb, 8),
                         "opts": {"input": "stdio", "always_interactive": True}})
     elif kind == 3:
         # read(2) path; neither -I nor -B given: interactive by default unless -Cf/-CF, so
